@@ -514,7 +514,6 @@ func runHistory(line []byte) (interface{}, error) {
 		}
 		var txs []pb.Transaction
 		var pendKids []pendKid
-		delCalls := map[int]bool{} // DeleteInterchain calls of an outsider: a refusal is reported as "no permission"
 		for _, op := range ops {
 			if len(op) == 0 {
 				return fail("empty op")
@@ -555,14 +554,12 @@ func runHistory(line []byte) (interface{}, error) {
 					tx = hx.BvmTx(outsider, nonceO, ic, "GetInterchain", pb.String(w.full(a)))
 				case 2:
 					tx = hx.BvmTx(outsider, nonceO, ic, "DeleteInterchain", pb.String(w.full(a)))
-					delCalls[len(txs)] = true
 				case 3:
 					s := w.full(a)
 					if i := strings.Index(s, ":"); i >= 0 {
 						s = s[i+1:]
 					}
 					tx = hx.BvmTx(outsider, nonceO, ic, "Register", pb.String(s))
-					delCalls[len(txs)] = true // refused for an account, like DeleteInterchain
 				case 4:
 					tx = hx.BvmTx(outsider, nonceO, ic, "GetIBTPByID", pb.String(idOf(a, b, cc)), pb.Bool(dd != 0))
 				case 5:
@@ -623,11 +620,7 @@ func runHistory(line []byte) (interface{}, error) {
 					}
 				}
 			} else {
-				cls := errClass(string(r.Ret))
-				if delCalls[i] && cls != 14 {
-					cls = 20 // whatever code the caller check uses
-				}
-				rc = append(rc, []int{0, cls, 0})
+				rc = append(rc, []int{0, errClass(string(r.Ret)), 0})
 			}
 		}
 		ob["rc"] = rc
